@@ -777,9 +777,10 @@ class TorchBackendProvider(BackendProvider):
             raise NonScalarLossError(tuple(y.shape))
 
         # Compute all gradients in one backward pass using torch.autograd.grad
-        grads = torch.autograd.grad(y, grad_tensors, create_graph=False)
+        # A parameter the loss does not depend on has gradient zero (autograd reports it as None).
+        grads = torch.autograd.grad(y, grad_tensors, create_graph=False, allow_unused=True)
 
-        return list(grads)
+        return [g if g is not None else torch.zeros_like(t) for g, t in zip(grads, grad_tensors)]
 
     def compute_jacobian(self, func, x):
         """
